@@ -167,7 +167,7 @@ def mergeOk : Val → Val → Val → Bool
   | .approval a, .approval b, .approval ab => decide (mergeDict (a ++ b) = ab)
   | .ranked a, .ranked b, .ranked ab => decide (mergeDict (a ++ b) = ab)
   | .score a, .score b, .score ab => decide (mergeDict (a ++ b) = ab)
-  | .nested _, .nested _, .nested _ => true
+  | .nested a, .nested b, .nested ab => decide (mergeNested (a ++ b) = ab)
   | _, _, _ => false
 
 def handle (op : String) (j : Json) : Option (Except String Json) :=
